@@ -11,12 +11,12 @@
 //   * stalls every call of one kind (slow workers), enforces a wall-clock limit, counts open descriptors.
 //
 // plan lines:
-//   clamp SYS PATH OFF NTH LEN      PATH substring or *, OFF number or *, NTH 1-based among matching calls or *
+//   clamp SYS PATH OFF NTH LEN      PATH substring, =exact or *, OFF number or *, NTH 1-based among matching calls or *
 //   fail  SYS PATH NTH ERRNO        ERRNO numeric
 //   killbefore K | killafter K      K-th mutating call (1-based)
 //   cloneok
 //   sched SEED MODE DEPTH           MODE delay|pct
-//   stall SYS USEC
+//   stall SYS USEC | stallp SYS PATH USEC
 //   timeout MS
 #define _GNU_SOURCE
 #include <errno.h>
@@ -168,6 +168,9 @@ static void load_plan(const char *file) {
       struct rule *r = &R[nR++]; r->kind = 'f'; r->sd = byname(s); strcpy(r->path, p); r->off = -1;
       r->nth = !strcmp(o, "*") ? -1 : atol(o); r->val = atol(n);
       if (!r->sd) { fprintf(stderr, "sup: unknown syscall %s\n", s); exit(2); }
+    } else if (!strcmp(k, "stallp") && c == 4) {      // stallp SYS PATH USEC : stall only calls on PATH
+      struct rule *r = &R[nR++]; r->kind = 's'; r->sd = byname(s); strcpy(r->path, p); r->off = -1; r->nth = -1; r->val = atol(o);
+      if (!r->sd) { fprintf(stderr, "sup: unknown syscall %s\n", s); exit(2); }
     } else if (!strcmp(k, "stall") && c == 3) {
       struct rule *r = &R[nR++]; r->kind = 's'; r->sd = byname(s); strcpy(r->path, "*"); r->off = -1; r->nth = -1; r->val = atol(p);
       if (!r->sd) { fprintf(stderr, "sup: unknown syscall %s\n", s); exit(2); }
@@ -189,7 +192,10 @@ static int match_rule(struct rule *r, struct th *t, struct sysdef *sd) {
     if (!strcmp(r->path, "fiemap")) return req == FIEMAP_NR && (r->hits++, r->nth < 0 || r->hits == r->nth);
     if (req != FICLONE_NR) return 0;
   }
-  if (strcmp(r->path, "*") && strcmp(r->path, "fiemap")) {
+  if (r->path[0] == '=') {        // exact match of one of the path fields
+    const char *w = r->path + 1;
+    if (strcmp(t->p0, w) && strcmp(t->p1, w) && strcmp(t->fdp, w) && strcmp(t->fdp2, w)) return 0;
+  } else if (strcmp(r->path, "*") && strcmp(r->path, "fiemap")) {
     if (!strstr(t->p0, r->path) && !strstr(t->p1, r->path) && !strstr(t->fdp, r->path) && !strstr(t->fdp2, r->path)) return 0;
   }
   if (r->off >= 0 && r->off != t->off) return 0;
